@@ -64,9 +64,9 @@ def t_shape(g, shape):
     return t_scalar(g, np.zeros(shape)).shape
 
 
-def step_pair(chk, cfg, e, g, rng, real_t=np.float64):
+def step_pair(chk, cfg, e, g, rng, real_t=np.float64, U=(1.5, -0.5, 0.25)):
     D = len(cfg["shape"])
-    U = np.array([1.5, -0.5, 0.25][:D])
+    U = np.array(U[:D])
     cfg_b = dict(cfg, shape=t_shape(g, cfg["shape"]))
     prim = "vorticity_field" if cfg["sim"] in ("ns2", "ns3") else "primary_field"
 
@@ -143,17 +143,21 @@ def run(chk: core.Check):
                               simulate={"num": 1, "depth": 24 if quick else 64}, seed=chk.seed + 3, timeout=1500)
         chk.add_tlc(f"emit compact states {cfg['sim']} {cfg['shape']}", res)
         for e in res.emits[: 1 if quick else 3]:
+            # free streams: generic and aligned with each single axis (a relabelling maps an aligned free stream onto another axis)
+            Us = flowstep.FREE_STREAMS[:4] if cfg.get("free_stream", False) else flowstep.FREE_STREAMS[:1]
             for g in gs:
-                try:
-                    errs = step_pair(chk, cfg, e, g, rng)
-                except core.MachineryError:
-                    raise
-                except Exception as ex:
-                    errs = [f"exception {type(ex).__name__}: {ex}"]
-                chk.traces += 1
-                chk.count((cfg["sim"], tuple(cfg["shape"]), tlc.canon(g), tlc.canon(e["om0"])[:40]))
-                for er in errs[:2]:
-                    chk.violation({"kind": "equivariance", "sim": cfg["sim"]}, f"{cfg['sim']} {cfg['shape']} group element {g}: {er}", {"g": g, "error": er})
+                for U in Us:
+                    try:
+                        errs = step_pair(chk, cfg, e, g, rng, U=U)
+                    except core.MachineryError:
+                        raise
+                    except Exception as ex:
+                        errs = [f"exception {type(ex).__name__}: {ex}"]
+                    chk.traces += 1
+                    chk.count((cfg["sim"], tuple(cfg["shape"]), tlc.canon(g), tuple(U), tlc.canon(e["om0"])[:40]))
+                    for er in errs[:2]:
+                        chk.violation({"kind": "equivariance", "sim": cfg["sim"]}, f"{cfg['sim']} {cfg['shape']} group element {g}, free stream {list(U)[:len(cfg['shape'])]}: {er}",
+                                      {"g": g, "U": list(U), "error": er})
             if len(chk.samples) < 3:
                 chk.sample({"sim": cfg["sim"], "shape": list(cfg["shape"]), "group_elements": len(gs), "example_g": gs[min(3, len(gs) - 1)]})
     chk.assumptions += [
